@@ -108,6 +108,32 @@ def make_ffi(spec, cuts, modname, target, prelude=''):
     return prev
 
 
+def make_ffi_history(spec, cuts, modname, target, prelude, emit_in_between):
+    """the top-level FFI built in another order -- cdef(), [an emission], include() of the base chain and a
+    typeof() of a struct that no cdef declared, -- so that declarations arrive after a first emission"""
+    import cffi
+    levels = cdefgen.split_chain(spec, cuts)
+    levels = [lv for lv in levels[:-1] if lv['decls']] + [levels[-1]]
+    csrc = (prelude + cdefgen.c_source(spec)) if target == 'c' else None
+    prev = None
+    for i, lv in enumerate(levels[:-1]):
+        f = cffi.FFI()
+        if prev is not None:
+            f.include(prev)
+        f.cdef(cdefgen.cdef_text(lv))
+        f.set_source('c23_base%d' % i, csrc)
+        prev = f
+    top = cffi.FFI()
+    top.cdef(cdefgen.cdef_text(levels[-1]))
+    top.set_source(modname, csrc)
+    if emit_in_between:
+        emit_text(top, target)
+    if prev is not None:
+        top.include(prev)
+    top.typeof('struct c23_never_declared *')
+    return top
+
+
 def emit_text(ffi, target):
     f = io.StringIO()
     with contextlib.redirect_stdout(io.StringIO()):
@@ -324,6 +350,18 @@ def _write_path(case, ctx):
     if emit_text(make_ffi(spec, cuts, modname, target, prelude), target) != new:
         ctx.fail('emits from two FFIs built from the same inputs differ', **detail)
     ctx.note([cdef, cuts, modname, target, prelude, 'repeat'], len(kinds) >= 3, 'determinism:in-process')
+    # 1b. the text is a function of the declarations, not of what was emitted earlier from the same object
+    try:
+        ref = emit_text(make_ffi_history(spec, cuts, modname, target, prelude, False), target)
+    except Exception:
+        ref = None              # (this order of cdef()/include() is not accepted for the case: nothing to compare)
+    if ref is not None:
+        got = emit_text(make_ffi_history(spec, cuts, modname, target, prelude, True), target)
+        if got != ref:
+            ctx.fail('an emission made before include()/typeof() added declarations changes the next emission '
+                     '(%d vs %d characters)' % (len(got), len(ref)), **detail)
+        ctx.note([cdef, cuts, modname, target, 'history'], len(kinds) >= 3,
+                 'determinism:after-an-earlier-emission' + ('+include' if len(cuts) else ''))
 
     d = os.path.join(ctx.tmp, 'c23-%d' % os.getpid())
     os.makedirs(d, exist_ok=True)
